@@ -627,6 +627,10 @@ impl<'a> Parser<'a> {
             if self.current == ':' {
                 // Optional separator
                 self.inc();
+
+                if self.end() {
+                    return Err(self.unexpected_character_error("timezone minute", 2));
+                }
             }
             let mut tzminute = if self.end() {
                 0
